@@ -779,7 +779,7 @@ long d_string_replace_text_in_range(DString * d, size_t pos, size_t len, const c
 
 		size_t stop;
 
-		if (len == -1) {
+		if ((len == -1) || (len > d->currentStringLength - pos)) {
 			stop = d->currentStringLength;
 		} else {
 			stop = pos + len;
